@@ -257,6 +257,13 @@ TBad ==
     /\ Keep(<<watched, flag, queue, begun, yielded, gotIds, delivered, bytes, closed, call,
               consulted, lastAns, lastPoll, frames, poisoned>>)
 
+\* C12: once the instance and all its handles are gone nothing it registered is left behind.
+TFinalActions ==
+    /\ Ev("final_actions")
+    /\ viol' = viol \cup Flag(R.n # 0, "registration_leaked_after_drop")
+    /\ Keep(<<watched, flag, queue, begun, yielded, gotIds, delivered, bytes, closed, call,
+              consulted, lastAns, lastPoll, frames, poisoned>>)
+
 TSkip ==
     /\ l <= Len(Rec)
     /\ R.e \in {"ids_unlock", "call_close", "ret_close", "consumer_done", "instance_dropped",
@@ -269,7 +276,7 @@ TNext == \/ TReset \/ TDeliver \/ TReturn
          \/ /\ UNCHANGED <<returned, preds>>
             /\ \/ TFlagSet \/ TSlotPut \/ TWake \/ TCall \/ TRead \/ TCb \/ TFlush \/ TFlagTake
                \/ TFlagPeek \/ TSlotGet \/ TYield \/ TRet \/ TRetPoll \/ TClosedSet \/ TClosedLoad
-               \/ TCallAdd \/ TRetAdd \/ TIdsLock \/ TStuck \/ TBad \/ TSkip
+               \/ TCallAdd \/ TRetAdd \/ TIdsLock \/ TStuck \/ TBad \/ TSkip \/ TFinalActions
 
 TraceSpec == TInit /\ [][TNext]_vars
 
@@ -286,7 +293,7 @@ C10set == {"record_not_a_faithful_copy", "yield_of_unwatched_signal", "more_yiel
            "record_of_no_delivery", "record_yielded_twice", "records_out_of_order"}
 C11set == {"pending_without_consulting_callback", "closed_not_sticky", "closed_before_close",
            "closed_reported_but_not_closed", "consumer_blocked_after_close"}
-C12set == {"ids_mutex_poisoned", "panic", "aborted"}
+C12set == {"ids_mutex_poisoned", "panic", "aborted", "registration_leaked_after_drop"}
 
 V_C03 == viol \cap C03set = {}
 V_C09 == viol \cap C09set = {}
